@@ -53,6 +53,47 @@ example : exP.Ok ∧ WellNested exOps ∧ writeAll exP exOps =
           13, 14, 0, 0, 0] :=
   ⟨⟨by decide, ⟨2, by decide, by decide⟩, ⟨8, by decide, by decide⟩⟩, by decide, by decide⟩
 
+/-! ## `lyb_skip_siblings` -/
+
+/-- `lyb_skip_lands_at_end` — "skipping `inner_chunks × LYB_META_BYTES` and then `written` bytes, chunk after chunk,
+passes exactly one sibling frame" — is **false** (finding F50).  (a) Top level: a frame whose data ends exactly on a
+chunk end and that then only opens an empty child frame has a last chunk `(size 0, inner 1)`; the `do … while
+(written)` loop stops before the child's meta record.  Witness with `sizeMax = 3`: `( 3 bytes ( ) )`, skipped
+frame 0; nothing else in the image, and one meta record is left unread. -/
+theorem lyb_skip_lands_at_end_fails :
+    ¬ ∀ (P : Params), P.Ok → ∀ (ops : List Op) (k : Nat) (img : Bytes), WellNested ops → writeAll P ops = some img →
+        readSkipping P ops k ({ inp := img }, []) = some ({ inp := [], frames := [] }, payloadsSkipping ops k) := by
+  intro H
+  have := H exP ⟨by decide, ⟨2, by decide, by decide⟩, ⟨8, by decide, by decide⟩⟩
+    [.start, .write [1, 2, 3], .start, .stop, .stop] 0 [3, 0, 1, 2, 3, 0, 1, 0, 0] (by decide) (by decide)
+  revert this
+  decide
+
+/-- (b) Nested: the enclosing frame's chunk ends inside the skipped frame *before* a nested meta record.  All inner
+records are skipped first, so `lyb_read` takes the enclosing frame's continuation record from the wrong offset; its
+size counter then wraps (`size_t`) and its `lyb_read_stop_siblings` fails.  `( 1 ( 2 ( ) 1 ) 1 )`, frame 1 skipped. -/
+theorem lyb_skip_lands_at_end_nested_fails :
+    readSkipping exP [.start, .write [9], .start, .write [1, 2], .start, .stop, .write [3], .stop, .write [4], .stop] 1
+      ({ inp := (writeAll exP [.start, .write [9], .start, .write [1, 2], .start, .stop, .write [3], .stop, .write [4],
+                               .stop]).getD [] }, []) = none := by
+  decide
+
+/-- the neighbouring cases are fine (non-vacuity of the statement, and what makes the witnesses special): the same
+frames with one byte less do land at the end -/
+example :
+    readSkipping exP [.start, .write [1, 2], .start, .stop, .stop] 0
+      ({ inp := (writeAll exP [.start, .write [1, 2], .start, .stop, .stop]).getD [] }, [])
+      = some ({ inp := [], frames := [] }, [])
+    ∧ readSkipping exP [.start, .write [9], .start, .start, .stop, .write [1, 2], .write [3], .stop, .write [4], .stop] 1
+      ({ inp := (writeAll exP [.start, .write [9], .start, .start, .stop, .write [1, 2], .write [3], .stop, .write [4],
+                               .stop]).getD [] }, []) = some ({ inp := [], frames := [] }, [[9], [4]]) := by
+  decide
+
+-- OPEN: lyb_skip_lands_at_end_partial — for a top-level frame (no enclosing frame) whose last chunk is not
+-- `(size 0, inner > 0)`, `rskip` consumes exactly the frame.  Needs the inner-chunk oracle in `spec`
+-- (number of deeper meta records per chunk), which `lyb_chunk_roundtrip` deliberately erases (`Item.erase`).
+-- Executed instead: `skip` op of wb_lyb (exhaustive ≤ 5 ops + boundary sweeps) agrees with `rskip` everywhere.
+
 /-! ## schema hashes -/
 
 /-- **Hash lookup.**  For every number of siblings and EVERY hash assignment of the collision shape (`Shape`: the byte
